@@ -70,12 +70,16 @@ Definition decode (s : list N) : list ch := decode_go 0 s.
 Definition encode (l : list ch) : list N := flat_map raw l.
 
 (* what strings.Builder.WriteRune(ch) appends for a character obtained by ranging over a string *)
-Definition wr (c : ch) : ch := if valid c then c else mkch 65533 [239; 191; 189] true.
+(* (an undecodable byte has code point U+FFFD already; keeping [cp c] makes [wr] code-point preserving
+   on every record, decoded or not) *)
+Definition wr (c : ch) : ch := if valid c then c else mkch (cp c) [239; 191; 189] true.
 
 Definition width (c : ch) : nat := length (raw c).
 Definition blen (l : list ch) : nat := fold_right (fun c n => (width c + n)%nat) 0%nat l.
 
-Definition is_nl (c : ch) : bool := cp c =? 10.
+(* the newline character is the byte 0A itself (the only character with code point 10 that [decode] produces) *)
+Definition is_nl (c : ch) : bool :=
+  (cp c =? 10) && valid c && match raw c with [b] => b =? 10 | _ => false end.
 Definition is_sp (c : ch) : bool := cp c =? 32.
 Definition is_tab (c : ch) : bool := cp c =? 9.
 Definition is_blank (c : ch) : bool := is_sp c || is_tab c.      (* the cut set " \t" *)
@@ -157,11 +161,11 @@ Section Lint.
   Definition l001_fix_line (l : list ch) : list ch := trim_r is_blank l.
   Definition l001_fix (t : list ch) : list ch := join_nl (map l001_fix_line (split_nl t)).
 
-  (* Check: `lastChar := rune(line[len(line)-1])`; unicode.IsSpace(lastChar) && != '\n' && != '\r' *)
+  (* Check: `lastChar := line[len(line)-1]`; lastChar == ' ' || lastChar == '\t' *)
   Definition l001_flag (l : list ch) : bool :=
     match last_byte (encode l) with
     | None => false
-    | Some b => is_space b && negb (b =? 10) && negb (b =? 13)
+    | Some b => (b =? 32) || (b =? 9)
     end.
   Definition l001_check_line (n : nat) (l : list ch) : list viol :=
     if l001_flag l then [(n, S (blen (trim_r is_blank l)))] else [].
@@ -322,8 +326,10 @@ Section Lint.
   Definition l010_check_line (n : nat) (l : list ch) : list viol :=
     flat_map (fun p : nat * list ch =>
                 flat_map (fun m : nat =>
-                            if (fst p =? 0)%nat && (m =? 0)%nat && first_blank l then []
-                            else [(n, S (fst p + m))])
+                            let col := S (fst p + m) in
+                            (* column <= len(line) && strings.TrimLeft(line[:column], " \t") == "" *)
+                            if (col <=? blen l)%nat && forallb (fun b => (b =? 32) || (b =? 9)) (firstn col (encode l)) then []
+                            else [(n, col)])
                          (sp_runs 0 0 0 (snd p)))
              (l010_parts None 0 0 [] l).
   Definition l010_check (t : list ch) : list viol := on_lines l010_check_line 1 (split_nl t).
